@@ -88,6 +88,18 @@ process_rs = read("process.rs")
 reap_echild_ok = bool(re.search(r"wait::waitpid\(pgid,\s*None\)\s*\{[^}]*Ok\(_\)\s*\|\s*Err\(Errno::ECHILD\)\s*=>\s*Ok\(\(\)\)", strip_tests(process_rs), re.S))
 scale_clamped = bool(re.search(r"fn rescale_scale\(.*?\{[^}]*\.clamp\(\s*f64::MIN_POSITIVE\s*,\s*f64::MAX\s*\)", strip_tests(meta_adapt), re.S)) and \
     bool(re.search(r"mutation_scale:\s*rescale_scale\(", strip_tests(meta_adapt)))
+path_rs = strip_tests(read("path.rs"))
+mutation_rs = strip_tests(read("mutation.rs"))
+# KeyManager: the counter only moves up (`next_key = next_key.max(key + 1)`), `next_key()` hands out the counter and
+# increments it; `mutate_anon_map` registers every existing key of the map before it asks for a new one
+key_seen_max = bool(re.search(r"fn on_key_seen\(&mut self, key: usize\)\s*\{\s*self\.next_key = self\.next_key\.max\(key \+ 1\);\s*\}", path_rs))
+key_next_counter = bool(re.search(r"fn next_key\(&mut self\) -> usize\s*\{\s*let result = self\.next_key;\s*self\.next_key \+= 1;\s*result\s*\}", path_rs))
+key_registered_first = bool(re.search(r"for existing_key in value_map\.keys\(\)\s*\{\s*path_node_ctx\.on_key_seen\(\*existing_key\);\s*\}\s*let key = path_node_ctx\.next_key\(\);", mutation_rs))
+meta_rs = strip_tests(read("meta.rs"))
+zero_ss_rejected = bool(re.search(r"if algo_config\.individual_sample_size == 0\s*\{\s*return Err\(Error::ZeroSampleSize\);", meta_rs))
+zero_nc_rejected = bool(re.search(r"if algo_config\.num_concurrent == 0\s*\{\s*return Err\(Error::ZeroNumConcurrent\);", meta_rs))
+default_ss = find(r"const DEFAULT_IND_SAMPLE_SIZE: usize = (\d+);", meta_rs, "DEFAULT_IND_SAMPLE_SIZE", "1", props="C08")
+default_nc = find(r"num_concurrent: self\.num_concurrent\.unwrap_or\((\d+)\)", meta_rs, "default num_concurrent", "1", props="C05")
 builtins = find(r"const BUILT_IN_TYPE_NAMES:[^=]*=\s*&\[(.*?)\];", spec_util, "BUILT_IN_TYPE_NAMES", "", props="C10")
 builtins = re.findall(r'"([^"]*)"', builtins or "")
 
@@ -170,12 +182,26 @@ def reapEchildOk : Bool := %s
 /-- `meta_adapt::mutate` clamps the mutated mutation scale into `[f64::MIN_POSITIVE, f64::MAX]` (`rescale_scale`) -/
 def scaleClamped : Bool := %s
 
+/-- path.rs `KeyManager`: `on_key_seen` is `next_key = max(next_key, key + 1)`, `next_key()` returns the counter and
+    increments it; mutation.rs `mutate_anon_map` calls `on_key_seen` for every existing key right before `next_key()` -/
+def keyMgrSeenIsMax : Bool := %s
+def keyMgrNextIsCounter : Bool := %s
+def keysRegisteredBeforeAlloc : Bool := %s
+
+/-- meta.rs `AlgoConfigBuilder::build`: defaults, and the two rejections -/
+def defaultSampleSize : Nat := %s
+def defaultNumConcurrent : Nat := %s
+def zeroSampleSizeRejected : Bool := %s
+def zeroNumConcurrentRejected : Bool := %s
+
 end Cambrian.Generated
 """ % (max_pop, min_reeval, chan, bcap, lean_list(builtins),
        lean_list(wl["real"]), lean_list(wl["int"]), lean_list(wl["bool"]), lean_list(wl["array"]),
        lean_list(wl["anonMap"]), lean_list(wl["enum"]), lean_list(wl["optional"]), lean_list(wl["const"]),
        json.dumps(def_prefix), json.dumps(member_prefix),
-       "true" if abort_guard else "false", "true" if completion_guard else "false", json.dumps(csv_header or ""), lean_list(csv_fields), "true" if reap_echild_ok else "false", "true" if scale_clamped else "false")
+       "true" if abort_guard else "false", "true" if completion_guard else "false", json.dumps(csv_header or ""), lean_list(csv_fields), "true" if reap_echild_ok else "false", "true" if scale_clamped else "false",
+       "true" if key_seen_max else "false", "true" if key_next_counter else "false", "true" if key_registered_first else "false",
+       default_ss, default_nc, "true" if zero_ss_rejected else "false", "true" if zero_nc_rejected else "false")
 
 old = open(OUT).read() if os.path.exists(OUT) else ""
 if gen != old:
